@@ -60,6 +60,19 @@ int main(void)
     CHECK(find_from(a, la, (u32)i1, " ARG") > 0 && find_from(a, la, (u32)i1, "d e") > 0 && find_from(a, la, (u32)i1, "'E'") > 0 && find_from(a, la, (u32)i1, "(default: v)") > 0 &&
           find_from(a, la, (u32)i0, "(default: enabled)") > 0, "C15: value placeholder, description words, environment hint and default are shown");
     (void)p2;
+#elif CFG == 3
+    /* "-x, --a-very-long-option-name-of-36-chars-<n0> ARG" (wider than column 40) with an 11-word description; option n1 with default "" */
+    p1[0] = ' '; p1[1] = ' '; p1[2] = '-'; p1[3] = '-'; p1[4] = (char)n1; p1[5] = ' '; p1[6] = 'A'; p1[7] = 0;
+    int i0 = find_from(a, la, (u32)syn_end, "-x, --a-very-long-option-name-of-36-chars-"), i1 = find_from(a, la, (u32)syn_end, p1);
+    CHECK(i0 > 0 && count_of(a, la, (u32)syn_end, "-x, --a-very-long-option-name-of-36-chars-") == 1 && i1 > i0 && count_of(a, la, (u32)syn_end, p1) == 1,
+          "C15: every declaration is listed exactly once in the option section, in declaration order");
+    { /* all eleven description words, in order */
+        static const char* const w[11] = { "aa", "bb", "cc", "dd", "ee", "ff", "gg", "hh", "ii", "jj", "kk" };
+        int pos = i0, ok = i0 > 0; for (int k = 0; ok && k < 11; ++k) { int q = find_from(a, la, (u32)pos, w[k]); if (q < 0 || q > i1) ok = 0; else pos = q + 2; }
+        CHECK(ok, "C15: no word of a description is lost or reordered");
+    }
+    CHECK(find_from(a, la, (u32)i1, "(default: )") > 0, "C15: a declared default is shown also when it is the empty string");
+    (void)p0; (void)p2;
 #else
     /* default group "arguments": option n0; group g2 (description desc): toggle n1 ("some words"), multi-option n2 short y, default x, y */
     p0[0] = '-'; p0[1] = '-'; p0[2] = (char)n0; p0[3] = ' '; p0[4] = 'A'; p0[5] = 0;
